@@ -641,6 +641,21 @@ func c09Run(c *core.Ctx) {
 						ws[i] = c09WAlpha[k]
 					}
 					run(gx, ws, true)
+					// zero-weight values are repeated 0 times, so even a non-positive
+					// value at a zero weight must not influence the weighted GeoMean
+					for _, bad := range []float64{0, -1} {
+						nx := append([]float64{}, gx...)
+						any := false
+						for i := range nx {
+							if ws[i] == 0 {
+								nx[i] = bad
+								any = true
+							}
+						}
+						if any {
+							run(nx, ws, true)
+						}
+					}
 				})
 			}
 			// the NaN rule: one non-positive value at every position
